@@ -64,6 +64,7 @@ def run_case(case, ctx):
         ctx.tag('q:' + mm['kind'])
     fstar = gap = fu = None
     rel = None
+    history = []
     for k, iters in enumerate(BUDGETS):
         np.random.seed(case['np_seed'] % (2 ** 32))
         eng, model = estim.estimate(dom, tuples, case['total'], solver, iters)
@@ -88,6 +89,7 @@ def run_case(case, ctx):
             rel = 0.0 if f - fstar <= 1e-7 * scale else float('inf')
         else:
             rel = (f - fstar) / denom
+        history.append(f)
         if rel <= TAU or (f - fstar) <= 1e-7 * scale:
             break
         ctx.mon('escalations')
@@ -95,14 +97,24 @@ def run_case(case, ctx):
     ctx.stat('relative_suboptimality', max(rel, 0.0))
     ctx.stat('oracle_gap_over_uniform_distance', gap / max(fu - fstar, 1e-300))
     mx = estim.max_abs_potential(model)
+    min_frac = 1.0
+    with np.errstate(all='ignore'):
+        for cl in model.cliques:
+            v = np.asarray(model.project(cl).values, dtype=float)
+            if v.size:
+                min_frac = min(min_frac, float(v.min()) / float(model.total))
+    stalled = len(history) >= 2 and abs(history[-1] - history[-2]) <= 1e-12 * max(1.0, abs(history[-1]))
     ctx.check(rel <= TAU or (f - fstar) <= 1e-7 * scale, 'not_above_optimum', 'suboptimal',
               '%s after %d iterations: loss %r, certified optimum %r, uniform %r: relative sub-optimality %.4f' % (
-                  solver, iters, f, fstar, fu, rel), solver=solver, rel=float(rel), max_abs_potential=mx)
+                  solver, iters, f, fstar, fu, rel), solver=solver, rel=float(rel), max_abs_potential=mx,
+              min_mass_fraction=min_frac, stalled=bool(stalled))
     # slack: the model's own normalisation is exact only to ~1e-9, which moves its loss by that much
     ctx.check(f >= fstar - gap - 1e-7 * scale - 1e-6 * max(fu - fstar, 0.0), 'not_below_optimum', 'below_optimum',
               '%s: loss %r of the returned model is below the certified lower bound %r' % (solver, f, fstar - gap),
               solver=solver, max_abs_potential=mx)
-    ctx.check(f <= fu * (1 + 1e-9) + 1e-12, 'not_worse_than_uniform', 'worse_than_uniform',
+    # slack 1e-7: the model's normalisation is exact only to ~1e-9, and when the uniform table is (almost) optimal the
+    # averaged iterates of RDA / IG end within a few 1e-9 of it (thorough tier: 4e-9 and 3e-9 on 1800 problems)
+    ctx.check(f <= fu * (1 + 1e-7) + 1e-12, 'not_worse_than_uniform', 'worse_than_uniform',
               '%s: loss %r of the returned model exceeds the uniform table\'s %r' % (solver, f, fu), solver=solver,
               max_abs_potential=mx)
 
@@ -117,7 +129,19 @@ def _f9(case, failure):
             and mp >= 1e12)
 
 
-FINDINGS = {}  # F9 was repaired in /repo (9ea056c); its witness stays as a regression case
+def _f11(case, failure):
+    """F11 (same mechanism as under C13): once mirror descent sits next to the boundary (a cell with ~1e-90 of the mass,
+    reached by one large early step) the loss decrease of any further step is below floating-point resolution, the
+    Armijo test reads 0 >= tiny positive and rejects, the step is halved 25 times per iteration and never recovers."""
+    d = failure.get('data', {})
+    try:
+        frac = float(d.get('min_mass_fraction', 1.0))
+    except Exception:
+        frac = 1.0
+    return (failure['kind'] == 'suboptimal' and case.get('solver') == 'MD' and bool(d.get('stalled')) and frac <= 1e-9)
+
+
+FINDINGS = {'F11': _f11}  # F9 was repaired in /repo (9ea056c); its witness stays as a regression case
 
 
 def fixed_cases(tier):
@@ -125,7 +149,14 @@ def fixed_cases(tier):
     meas = [dict(Q=np.eye(1), kind='identity', y=np.array([111.54835808]), sigma=100.0, proj=('a',))]
     w = dict(attrs=['a'], shape=[1], meas=meas, N=20.0, structure='single_cell', solver='MD', total=20.0,
              spellings=['dense'], np_seed=1)
-    return [('fixed:F9', w)]
+    import os
+    import pickle
+    out = [('fixed:F9', w)]
+    wp = os.path.join(os.path.dirname(os.path.dirname(os.path.dirname(os.path.abspath(__file__)))), 'witnesses', 'C03_F11.pkl')
+    if os.path.exists(wp):
+        with open(wp, 'rb') as f:
+            out.append(('witness:F11', pickle.load(f)))
+    return out
 
 
 TECHNIQUE = 'runtime monitoring: loss of the model returned by the real estimator (recomputed from model.project) compared with a certified constrained least-squares optimum over the full joint (reference model with duality-gap certificate)'
